@@ -462,6 +462,10 @@ func (in *inv) step(op *Op) {
 		r.mu.Lock()
 		r.shared[op.Var] = in.vars[op.Var]
 		r.mu.Unlock()
+	case "sleepgen": // a slow search: only invocations of the random generation phase are slow (the phase is known from the engine's hook)
+		if CurPhase.Load() == "gen" {
+			time.Sleep(time.Duration(op.Ms) * time.Millisecond)
+		}
 	case "sleepfirst": // a slow search phase: only the first N invocations of the scenario are slow
 		if in.top <= op.N {
 			time.Sleep(time.Duration(op.Ms) * time.Millisecond)
